@@ -462,12 +462,20 @@ theorem deputyRoot_unconstrained_off_snapshot :
       accept Witness.ctx { Witness.honest with header := { Witness.honest.header with deputyRoot := d } } = .ok := by
   decide
 
-/-- **duplicate_tx_in_block_accepted** (witness): nothing in the check sequence looks for the same
-    transaction twice INSIDE one block (`ExistTxs` only walks the ancestors); when re-execution of such a
-    block succeeds — it does on the real engine, oracle `c02/accepted-invalid/tx-duplicate-in-block` —
-    the block is accepted. -/
+/-- **duplicate_in_block_rejected**: for every node and every block, a tx hash or box sub-tx hash that occurs twice
+    inside the block makes `verifyTxs` fail (current code, fix 828f704). -/
+theorem duplicate_in_block_rejected (c : Ctx) (b : Block) (hc : c.dupCheck = true)
+    (hd : hasDup (blockHashes b.txs) = true) : verifyTxs c b = some .txReplay := by
+  unfold verifyTxs; simp [hc, hd]
+
+/-- **duplicate_tx_in_block_accepted** (witness, code BEFORE fix 828f704 = `dupCheck := false`): nothing in the
+    check sequence looked for the same transaction twice INSIDE one block (`ExistTxs` only walks the
+    ancestors); when re-execution of such a block succeeded — it did on the real engine, oracle
+    `c02/accepted-invalid/tx-duplicate-in-block` — the block was accepted.  The current code rejects it. -/
 theorem duplicate_tx_in_block_accepted :
-    accept Witness.ctx { Witness.honest with txs := [⟨1, 20000010, true⟩, ⟨1, 20000010, true⟩] } = .ok := by
+    let b : Block := { Witness.honest with txs := [⟨1, 20000010, true, []⟩, ⟨1, 20000010, true, []⟩] }
+    accept { Witness.ctx with dupCheck := false } b = .ok ∧ accept Witness.ctx b = .reject .txReplay ∧
+    accept Witness.ctx { Witness.honest with txs := [⟨1, 20000010, true, []⟩, ⟨2, 20000010, true, [5, 1]⟩] } = .reject .txReplay := by
   decide
 
 /-- the scratch account manager IS touched by a rejected block that reaches re-execution (the only
